@@ -111,6 +111,8 @@ static struct nv_lt nv_mlresult_params(const struct nv_mlresult* r, int64_t tria
   __CPROVER_assert(0 <= trial && trial < r->trials, "params(trial): 0 <= trial < trials()");
   struct nv_lt p = nv_lt_zero(); p.rows = nv_nondet_int64_t(); p.cols = 1; p.id = nv_params_id0 + (uint64_t)trial; return p;
 }
+#define NV_ID_ALL 3
+static struct nv_indices nv_arange(int64_t lo, int64_t hi) { struct nv_indices s; s.n = (hi >= lo && lo >= 0) ? hi - lo : 0; s.id = NV_ID_ALL; return s; }
 static void nv_learner_fit_dataset(struct nv_linear* self) { }      /* ASSUMED: touches the learner_t base only */
 static struct nv_lany nv_any_of_result(const struct nv_lresult* r) { struct nv_lany a; a.id = nv_fresh_id(); a.w = r->m_weights.id; a.b = r->m_bias.id; return a; }
 uint64_t nv_stored; struct nv_lt nv_stored_values; struct nv_lany nv_stored_extra;
@@ -120,16 +122,18 @@ static void nv_store_final(struct nv_mlresult* r, struct nv_lt values, struct nv
 /* ---- contracts */
 #define NV_LT_FRESH(p) __CPROVER_is_fresh(p, sizeof(*(p)))
 /* the coefficients `t` are part `prt` of the up-scaled solution of the minimisation of the objective over the index list `s`
- * with hyper-parameters `p`, warm-started from `e` */
-#define NV_FITTED(t, prt, s, p, e) ((t).part == (prt) && (t).state == nv_lf_state && (t).on == (s) && (t).params == (p) && (t).extra == (e) && (t).up == 1 && (t).scaling == nv_cfg_scaling)
+ * with hyper-parameters `p`, fitted with the configured scaling (whatever the warm start: not part of the property) */
+#define NV_FITTED(t, prt, s, p) ((t).part == (prt) && (t).state == nv_lf_state && (t).on == (s) && (t).params == (p) && (t).up == 1 && (t).scaling == nv_cfg_scaling)
 
 /* ::fit(model, dataset, samples, loss, solver, params, logger, extra) */
 #define NV_CONTRACT_linear_fit_inner \
-__CPROVER_requires(NV_LT_FRESH(model) && NV_LT_FRESH(samples) && NV_LT_FRESH(extra)) \
+__CPROVER_requires(NV_LT_FRESH(NV_ARG_linear_fit_inner_0) && NV_LT_FRESH(NV_ARG_linear_fit_inner_2) && NV_LT_FRESH(NV_ARG_linear_fit_inner_7)) \
 __CPROVER_assigns(nv_id_counter, nv_minimized, nv_lf_state, nv_upscaled) \
 __CPROVER_ensures(nv_minimized == __CPROVER_old(nv_minimized) + 1 && nv_upscaled == __CPROVER_old(nv_upscaled) + 1) \
-__CPROVER_ensures(NV_FITTED(__CPROVER_return_value.m_weights, NV_PART_WEIGHTS, samples->id, params.id, extra->id)) \
-__CPROVER_ensures(NV_FITTED(__CPROVER_return_value.m_bias, NV_PART_BIAS, samples->id, params.id, extra->id)) \
+__CPROVER_ensures(NV_FITTED(__CPROVER_return_value.m_weights, NV_PART_WEIGHTS, NV_ARG_linear_fit_inner_2->id, NV_ARG_linear_fit_inner_5.id)) \
+__CPROVER_ensures(NV_FITTED(__CPROVER_return_value.m_bias, NV_PART_BIAS, NV_ARG_linear_fit_inner_2->id, NV_ARG_linear_fit_inner_5.id)) \
+/* the solver was started from the x0 made from the given `extra` (warm start) */ \
+__CPROVER_ensures(__CPROVER_return_value.m_weights.extra == NV_ARG_linear_fit_inner_7->id && __CPROVER_return_value.m_bias.extra == NV_ARG_linear_fit_inner_7->id) \
 __CPROVER_ensures(__CPROVER_return_value.m_weights.id != 0 && __CPROVER_return_value.m_bias.id != 0)
 
 /* ================================================================================================ linear::evaluate
@@ -196,10 +200,40 @@ __CPROVER_ensures((NV_IN(NV_RNG) && __CPROVER_old(nv_e_pred) == 0 && __CPROVER_o
 /* flatten_iterator_t::loop(callback): the stub nv_fiter_loop_0 is GENERATED from the lambda's current capture list
  * (linear_spec.py: LOOP_BODY, hooks.lambda_stub_hook) */
 #define NV_CONTRACT_linear_evaluate \
-__CPROVER_requires(NV_LT_FRESH(samples) && NV_LT_FRESH(weights) && NV_LT_FRESH(bias) && 0 <= samples->n && samples->n <= 1000000000) \
+__CPROVER_requires(NV_LT_FRESH(NV_ARG_linear_evaluate_1) && NV_LT_FRESH(NV_ARG_linear_evaluate_3) && NV_LT_FRESH(NV_ARG_linear_evaluate_4) && 0 <= NV_ARG_linear_evaluate_1->n && NV_ARG_linear_evaluate_1->n <= 1000000000) \
 __CPROVER_assigns(nv_id_counter, nv_e_looped, nv_e_pred, nv_e_pred_w, nv_e_pred_b, nv_e_pred_by, nv_e_pred_out, nv_e_pred_pos, __CPROVER_object_whole(nv_e_cell), __CPROVER_object_whole(nv_e_kind), __CPROVER_object_whole(nv_e_ok)) \
-__CPROVER_ensures(__CPROVER_return_value.rows == 2 && __CPROVER_return_value.cols == samples->n && nv_e_looped == __CPROVER_old(nv_e_looped) + 1) \
+__CPROVER_ensures(__CPROVER_return_value.rows == 2 && __CPROVER_return_value.cols == NV_ARG_linear_evaluate_1->n && nv_e_looped == __CPROVER_old(nv_e_looped) + 1) \
 /* every element: for the ghost position -- predicted once with (weights, bias) from the inputs of `samples`, error in row 0, loss value in row 1 */ \
-__CPROVER_ensures((0 <= nv_g && nv_g < samples->n) ==> (nv_e_pred == 1 && nv_e_pred_w == weights->id && nv_e_pred_b == bias->id && nv_e_pred_by == samples->id && nv_e_cell[0] == 1 && nv_e_kind[0] == 1 && nv_e_ok[0] && nv_e_cell[1] == 1 && nv_e_kind[1] == 2 && nv_e_ok[1])) \
+__CPROVER_ensures((0 <= nv_g && nv_g < NV_ARG_linear_evaluate_1->n) ==> (nv_e_pred == 1 && nv_e_pred_w == NV_ARG_linear_evaluate_3->id && nv_e_pred_b == NV_ARG_linear_evaluate_4->id && nv_e_pred_by == NV_ARG_linear_evaluate_1->id && nv_e_cell[0] == 1 && nv_e_kind[0] == 1 && nv_e_ok[0] && nv_e_cell[1] == 1 && nv_e_kind[1] == 2 && nv_e_ok[1])) \
 /* summary tags (what the callers reason with); an empty list evaluates nothing */ \
-__CPROVER_ensures(samples->n > 0 ==> (__CPROVER_return_value.by == samples->id && __CPROVER_return_value.w == weights->id && __CPROVER_return_value.b == bias->id))
+__CPROVER_ensures(NV_ARG_linear_evaluate_1->n > 0 ==> (__CPROVER_return_value.by == NV_ARG_linear_evaluate_1->id && __CPROVER_return_value.w == NV_ARG_linear_evaluate_3->id && __CPROVER_return_value.b == NV_ARG_linear_evaluate_4->id))
+
+/* ================================================================================================ the tuning callback
+ * (lambda #0 of linear_t::fit): "per (trial, fold) the stored statistics are those evaluated with the model fitted in that
+ * task on that fold's train / valid samples".  ml::tune (C13) stores what the callback returns under (trial, fold). */
+#define NV_CB_RET __CPROVER_return_value
+#define NV_CONTRACT_linear_fit_callback \
+__CPROVER_requires(NV_LT_FRESH(self) && NV_LT_FRESH(NV_ARG_linear_fit_callback_1) && NV_LT_FRESH(NV_ARG_linear_fit_callback_2) && NV_LT_FRESH(NV_ARG_linear_fit_callback_4) && NV_LT_FRESH(batch)) \
+__CPROVER_requires(NV_ARG_linear_fit_callback_1->id == NV_ID_TRAIN && NV_ARG_linear_fit_callback_2->id == NV_ID_VALID && 0 <= NV_ARG_linear_fit_callback_1->n && NV_ARG_linear_fit_callback_1->n <= 1000000000 && 0 <= NV_ARG_linear_fit_callback_2->n && NV_ARG_linear_fit_callback_2->n <= 1000000000) \
+__CPROVER_assigns(nv_id_counter, nv_minimized, nv_lf_state, nv_upscaled, nv_e_looped, nv_e_pred, nv_e_pred_w, nv_e_pred_b, nv_e_pred_by, nv_e_pred_out, nv_e_pred_pos, __CPROVER_object_whole(nv_e_cell), __CPROVER_object_whole(nv_e_kind), __CPROVER_object_whole(nv_e_ok)) \
+/* exactly one model is fitted in the task: on the fold's TRAINING samples, with the trial's hyper-parameters */ \
+__CPROVER_ensures(nv_minimized == __CPROVER_old(nv_minimized) + 1 && nv_upscaled == __CPROVER_old(nv_upscaled) + 1) \
+__CPROVER_ensures(NV_FITTED(NV_CB_RET._2.m_weights, NV_PART_WEIGHTS, NV_ID_TRAIN, NV_ARG_linear_fit_callback_3.id) && NV_FITTED(NV_CB_RET._2.m_bias, NV_PART_BIAS, NV_ID_TRAIN, NV_ARG_linear_fit_callback_3.id)) \
+/* first component: (error | loss) of THAT model on the training samples, second: of THAT model on the validation samples */ \
+__CPROVER_ensures((NV_ARG_linear_fit_callback_1->n > 0 ==> (NV_CB_RET._0.by == NV_ID_TRAIN && NV_CB_RET._0.w == NV_CB_RET._2.m_weights.id && NV_CB_RET._0.b == NV_CB_RET._2.m_bias.id)) && NV_CB_RET._0.rows == 2 && NV_CB_RET._0.cols == NV_ARG_linear_fit_callback_1->n) \
+__CPROVER_ensures((NV_ARG_linear_fit_callback_2->n > 0 ==> (NV_CB_RET._1.by == NV_ID_VALID && NV_CB_RET._1.w == NV_CB_RET._2.m_weights.id && NV_CB_RET._1.b == NV_CB_RET._2.m_bias.id)) && NV_CB_RET._1.rows == 2 && NV_CB_RET._1.cols == NV_ARG_linear_fit_callback_2->n) \
+__CPROVER_ensures(nv_e_looped == __CPROVER_old(nv_e_looped) + 2)
+
+/* ================================================================================================ linear_t::fit
+ * "the final refit uses the optimum trial's parameters on ALL given samples, the stored weights / bias are the (up-scaled)
+ * result of that refit", the final statistics are evaluated with the STORED model on the samples given to fit(). */
+#define NV_CONTRACT_linear_model_fit \
+__CPROVER_requires(NV_LT_FRESH(self) && NV_LT_FRESH(NV_ARG_linear_model_fit_2) && NV_ARG_linear_model_fit_2->id == NV_ID_FIT && 0 <= NV_ARG_linear_model_fit_2->n && NV_ARG_linear_model_fit_2->n <= 1000000000 && nv_params_id0 <= 1000000000) \
+__CPROVER_assigns(*self, nv_thrown, nv_stored, nv_stored_values, nv_stored_extra) \
+__CPROVER_assigns(nv_id_counter, nv_minimized, nv_lf_state, nv_upscaled, nv_e_looped, nv_e_pred, nv_e_pred_w, nv_e_pred_b, nv_e_pred_by, nv_e_pred_out, nv_e_pred_pos, __CPROVER_object_whole(nv_e_cell), __CPROVER_object_whole(nv_e_kind), __CPROVER_object_whole(nv_e_ok)) \
+/* exactly one refit, after tuning: optimum trial's hyper-parameters, ALL given samples; stored up-scaled once */ \
+__CPROVER_ensures(nv_thrown || (nv_minimized == __CPROVER_old(nv_minimized) + 1 && nv_upscaled == __CPROVER_old(nv_upscaled) + 1)) \
+__CPROVER_ensures(nv_thrown || (NV_FITTED(self->m_weights, NV_PART_WEIGHTS, NV_ID_FIT, nv_params_id0 + (uint64_t)nv_opt_trial) && NV_FITTED(self->m_bias, NV_PART_BIAS, NV_ID_FIT, nv_params_id0 + (uint64_t)nv_opt_trial))) \
+/* final statistics: of the stored model on the samples given to fit(), stored exactly once together with the refit result */ \
+__CPROVER_ensures(nv_thrown || (nv_stored == __CPROVER_old(nv_stored) + 1 && (NV_ARG_linear_model_fit_2->n > 0 ==> (nv_stored_values.by == NV_ID_FIT && nv_stored_values.w == self->m_weights.id && nv_stored_values.b == self->m_bias.id)) && nv_stored_values.rows == 2 && nv_stored_values.cols == NV_ARG_linear_model_fit_2->n)) \
+__CPROVER_ensures(nv_thrown || (nv_stored_extra.w == self->m_weights.id && nv_stored_extra.b == self->m_bias.id && nv_stored_extra.id != 0))
